@@ -182,7 +182,9 @@ def default_trigger(oc: dict, f: dict, d: Any, kept_wrapper: str | None = None) 
     wrapper classes only exist without that option. Together with --reuse-model the fold can stop at the NULLABLE root model
     (the second of two identical nullable enums is written `class Tint(Colour): pass`, so `Colour` stays a class; a member that
     reaches it through an alias definition is folded one level only and keeps the annotation `Optional[Colour]`): the member
-    then refers to the wrapper exactly as without the option, and the conversion step that fails is the one of D27 / C09-F3.
+    then refers to the wrapper exactly as without the option, and the conversion step that fails is the one of D27 (dataclass output;
+    pydantic output validates every default that is not None through the root model and must hold: C09-F3 / C09-F6 are repaired, so
+    falsy defaults are no class of their own any more).
     `kept_wrapper` = name of the non-Enum class of the emitted package that the member's annotation still mentions (read from
     the emitted class by `kept_wrapper_of`), None when the annotation names the Enum itself."""
     e, chain = resolve(oc, f["to"])
@@ -192,16 +194,16 @@ def default_trigger(oc: dict, f: dict, d: Any, kept_wrapper: str | None = None) 
     if None in e["values"] and e["type"] != "string":
         return "null_not_string_typed"  # D12: `NoneType_None = None` is a member, find_member skips it
     if collapse and kept_wrapper is not None and is_nullable_wrapper(e):
-        # the fold left the nullable root model in place (see above): D27 / C09-F3. A kept ALIAS wrapper under the option has
+        # the fold left the nullable root model in place (see above): D27. A kept ALIAS wrapper under the option has
         # never been observed and is deliberately not classified (a failure there is reported as a violation).
-        return "nullable_wrapper" if d else "nullable_wrapper_falsy_default"
+        return "nullable_wrapper"
     if collapse:
         # the field refers to the enum itself: the lookup of D24 on the kept entries
         return cd.default_trigger(e["type"], non_null(e) if is_nullable_wrapper(e) else e["values"], d)
     if is_nullable_wrapper(e):
-        return "nullable_wrapper" if d else "nullable_wrapper_falsy_default"  # D27 / C09-F3 (also behind an alias)
+        return "nullable_wrapper"  # D27 (also behind an alias)
     if chain:
-        return "alias_wrapper" if d else "alias_wrapper_falsy_default"
+        return "alias_wrapper"  # C09-F5
     return cd.default_trigger(e["type"], e["values"], d)
 
 
@@ -661,7 +663,8 @@ CORPUS: list[dict] = [
                                              {"name": "Tint", "module": [], "is": "enum", "type": "string", "values": ["p", "q", None]}]))],
     # both options, two identical NULLABLE string enums (the second becomes `class Tint(Colour): pass`, the root model `Colour` stays) and a
     # member that reaches `Colour` through alias definitions: the fold stops at `Optional[Colour]`. Truthy default: validated through the root
-    # model (must hold); falsy default "": the route of known finding C09-F3 under the option pair (first met by the random stream, seed 8)
+    # model (must hold); falsy default "": the route of the REPAIRED finding C09-F3 under the option pair (first met by the random stream,
+    # seed 8; the factory was only built for truthy defaults) — must hold as well
     *[{"okind": "single", "model": model, "opts": {"set_default_enum_member": True, "reuse_model": True, "collapse_root_models": True},
        "defs": [{"name": "Colour", "module": [], "is": "enum", "type": "string", "values": ["", "on", None]},
                 {"name": "Tint", "module": [], "is": "enum", "type": "string", "values": ["", "on", None]},
@@ -671,6 +674,19 @@ CORPUS: list[dict] = [
        "fields": [{"name": "first", "shape": "scalar", "to": {"def": "Colour"}, "wrap": "ref", "default": ""},
                   {"name": "fifth", "shape": "scalar", "to": {"def": "Tone"}, "wrap": "allOf"}]}
       for model in ("pydantic.BaseModel", "pydantic_v2.BaseModel") for dflt in ("on", "")],
+    # former witnesses of C09-F6 (repaired: DataModelField.__str__ of the pydantic kinds builds the validating default_factory for every
+    # default that is not None, it was `elif self.default and …`): an enum reached through an alias definition (root model `Shade` around
+    # `Colour`), WITHOUT --collapse-root-models, and the falsy defaults 0 / "" / false on the field and on the alias definition — must hold
+    # in both pydantic kinds (dataclass output: known finding C09-F5)
+    *[{"okind": "single", "model": model, "opts": {"set_default_enum_member": True},
+       "defs": [{"name": "Colour", "module": [], "is": "enum", "type": ty, "values": vals},
+                {"name": "Shade", "module": [], "is": "alias", "target": "Colour"},
+                {"name": "Tone", "module": [], "is": "alias", "target": "Colour", "default": d}],
+       "holder": {"name": "Holder", "module": [], "at": "root", "pos": 9},
+       "fields": [{"name": "first", "shape": "scalar", "to": {"def": "Shade"}, "wrap": "ref", "default": d},
+                  {"name": "second", "shape": "scalar", "to": {"def": "Tone"}, "wrap": "ref"}]}
+      for model in ("pydantic_v2.BaseModel", "pydantic.BaseModel")
+      for ty, vals, d in (("integer", [0, 1, 2], 0), ("string", ["", "on"], ""), (None, [False, "f"], False))],
 ]
 
 
